@@ -84,6 +84,20 @@ CLAIMED = {
         technique="TLA+ model of the client against a breaking-stream environment checked by TLC; fault enumeration at every byte offset "
                   "of recorded streams against the real client; trace validation",
         design="5/C08", engine="tlc-exhaustive"),
+    "C11": dict(
+        text="spec/Steps.tla is a state machine of CallStep/CallSignal (lookup, input unserialization, the initializer critical "
+             "section shared by step and signal paths, handler invocation, output checks) with a ledger of handler invocations; TLC "
+             "checks HandlerIffValid, ExactArgument, ErrorClass (operational outcome = declarative Expected), InitOncePerRun, "
+             "DataStable, NoStuck over every interleaving of 2-3 goroutines issuing step and signal calls for the same and different "
+             "run IDs over 2 steps x all handler behaviours x valid/invalid inputs; every distinct gate-level schedule is exported and "
+             "forced on the real CallableSchema (the harness's initializer and handlers park the goroutines; blocked-on-mutex is "
+             "confirmed from goroutine dumps); random 4-goroutine sessions (also under -race in the thorough tier) are logged and "
+             "validated by StepsTrace.tla.",
+        note=TRUST + "The harness's recording handlers and counting initializer; error types via errors.As; the Go race detector "
+             "(thorough) as the instrument for data races.",
+        technique="TLA+ state machine of step/signal calls checked by TLC over all interleavings; exported schedules forced on the "
+                  "real code; recorded ledgers validated by a trace spec",
+        design="5/C11", engine="tlc-exhaustive"),
     "C15": dict(
         text="spec/Compat.tla states the property as a partial specification over an abstract schema AST: MustReject (different base "
              "kind, incompatible element/key/value/property types, undeclared or missing-required property, differing enforced IDs, "
